@@ -20,6 +20,10 @@ def run(tier: str, keep: bool = False) -> int:
     r.solo("nak", "S", fam, ["poll", "nak", "nakodd", "ack"], 5 if q else 6, props, pre=[["put"], ["poll"]], limit=6000 if q else 60000)
     r.solo("nakfin", "S", 'Numbered({ SoloBase(2, 1, 2), [SoloBase(2, 1, 2) EXCEPT !.mode = "UNACK"] })',
            ["poll", "nak", "nakodd", "ack", "fin", "tick"], 6 if q else 8, props, pre=[["put"], ["poll"], ["poll"]], limit=4000 if q else 60000)
+    # a NAK while the EOF awaits its ACK, between expiries of the positive ACK timer: the retry procedure goes on undisturbed
+    # (monitor C04 judges the EOF re-sends and the limit from the clock, monitor C08 the retry count across the NAK call)
+    r.solo("nakTimer", "S", 'Numbered({ [SoloBase(l, 1, 2) EXCEPT !.ackInt = 700] : l \\in {2, 3} })', ["tick", "tick400", "poll", "nak"],
+           9 if q else 10, props + ["C04"], pre=[["put"], ["poll"], ["poll"], ["poll"]], limit=4000 if q else 60000)
     r.solo("twonaks", "S", 'Numbered({ SoloBase(3, 1, 2), [SoloBase(3, 1, 2) EXCEPT !.closure = TRUE] })', ["poll", "nak", "ack", "fin"],
            9 if q else 10, props, pre=[["put"], ["poll"], ["nak"], ["poll"], ["poll"], ["poll"]])
     r.driver("src_random", 600 if q else 8000, props, leave=0.0)
